@@ -12,8 +12,10 @@ import (
 // Totals accumulates coverage over the engines used by one check.
 type Totals struct {
 	States, Trans, Execs, Steps int64
+	LastMaxSteps                int64
 	Outcomes                    int
 	Bfs, Explore                []map[string]interface{}
+	quietAgg                    map[string]map[string]interface{}
 }
 
 var cfgsQuick = []BfsCfg{{N: 1, MP: 1}, {N: 2, MP: 1}, {N: 2, MP: 2, Consume: true, Dse1: true}}
@@ -27,7 +29,7 @@ func RegisterHandlerLevel() {
 	for _, c := range append(append([]BfsCfg{}, cfgsQuick...), cfgsThorough...) {
 		models = append(models, RegisterBfs(c))
 	}
-	for _, s := range Scripts() {
+	for _, s := range append(Scripts(), CloseScripts()...) {
 		explore.Register(s.Harness("preempt", s.QB))
 	}
 }
@@ -90,6 +92,15 @@ func RunHandlerLevel(c *vlib.Check, prop string, t *Totals, generic ...string) {
 
 // RunHarness explores one registered harness at the given bound and reports.
 func RunHarness(c *vlib.Check, prop string, t *Totals, name string, bound int, generic ...string) {
+	runHarness(c, prop, t, name, bound, false, generic...)
+}
+
+// RunHarnessQuiet is RunHarness without a per-run line (used for the many fault positions).
+func RunHarnessQuiet(c *vlib.Check, prop string, t *Totals, name string, bound int, generic ...string) {
+	runHarness(c, prop, t, name, bound, true, generic...)
+}
+
+func runHarness(c *vlib.Check, prop string, t *Totals, name string, bound int, quiet bool, generic ...string) {
 	h := explore.Lookup(name)
 	h.Bound = bound
 	if c.Expired("explore " + name) {
@@ -105,6 +116,25 @@ func RunHarness(c *vlib.Check, prop string, t *Totals, name string, bound int, g
 	t.Execs += r.Stats.Execs
 	t.Steps += r.Stats.Steps
 	t.Outcomes += len(r.Stats.Outcomes)
+	t.LastMaxSteps = int64(r.Stats.MaxSteps)
+	if quiet {
+		q := t.quietAgg[name]
+		if q == nil {
+			q = map[string]interface{}{"harness": name, "param": h.Param, "cost_model": r.Cost, "bound": r.Bound, "fault_positions": 0, "schedules": int64(0), "scheduling_points": int64(0), "violating_schedules": int64(0), "distinct_outcomes": 0}
+			if t.quietAgg == nil {
+				t.quietAgg = map[string]map[string]interface{}{}
+			}
+			t.quietAgg[name] = q
+			t.Explore = append(t.Explore, q)
+		}
+		q["fault_positions"] = q["fault_positions"].(int) + 1
+		q["schedules"] = q["schedules"].(int64) + r.Stats.Execs
+		q["scheduling_points"] = q["scheduling_points"].(int64) + r.Stats.Steps
+		q["violating_schedules"] = q["violating_schedules"].(int64) + r.Stats.ViolCount
+		q["distinct_outcomes"] = q["distinct_outcomes"].(int) + len(r.Stats.Outcomes)
+		ReportExplore(c, r, prop, generic...)
+		return
+	}
 	t.Explore = append(t.Explore, map[string]interface{}{"harness": name, "param": h.Param, "cost_model": r.Cost, "bound": r.Bound, "schedules": r.Stats.Execs, "scheduling_points": r.Stats.Steps, "max_points_per_schedule": r.Stats.MaxSteps, "threads": r.Stats.MaxThreads, "distinct_outcomes": len(r.Stats.Outcomes), "violating_schedules": r.Stats.ViolCount, "wall_s": r.WallS, "complete": r.Complete})
 	for _, ch := range r.Stats.Sample {
 		c.Sample(map[string]interface{}{"harness": name, "schedule_choices": ch})
